@@ -562,10 +562,12 @@ namespace
         auto  acts = split(sp.line.gets("acts", ""), '/');
         J("sact").i("id", id).i("g", inst_of(self)).i("n", static_cast<long>(self.node_index())).i("t", to_k(now)).i("k", k).i("xm", xm ? 1 : 0).raw("q", sched_snapshot(sched)).emit();
         if (k >= static_cast<long>(acts.size()) || acts[k] == "-" || acts[k].empty()) { return; }
+        bool do_throw = false;
         for (auto &optext : split(acts[k], '+'))
         {
             auto        f   = split(optext, '.');
             std::string op  = f.at(0);
+            if (op == "throw") { do_throw = true; continue; }   // after the operations of this activation: user code fails
             long        dt  = f.size() > 1 ? std::stol(f[1]) : 0;
             std::string tag = f.size() > 2 ? f[2] : "";
             long        ret = 0;
@@ -587,6 +589,11 @@ namespace
             else { throw std::logic_error("hgv: unknown scheduler op " + op); }
             J("sop").i("id", id).i("t", to_k(now)).str("op", op).i("dt", dt).str("tag", tag).i("ret", ret).raw("q", sched_snapshot(sched)).emit();
         }
+        if (do_throw)
+        {
+            J("sthrow").i("id", id).i("t", to_k(now)).emit();
+            throw std::runtime_error("sched " + std::to_string(id) + " throws at " + std::to_string(to_k(now)));
+        }
     }
 
     struct VSched
@@ -603,6 +610,25 @@ namespace
             const Int kk = k.get() + 1;
             k.set(kk);
             run_sched_ops(id.value(), kk, x.modified(), sched, self, now);
+        }
+    };
+
+    // the same scripted scheduler user with an output (its activation count), so that its errors can be captured per node
+    struct VSchedO
+    {
+        static constexpr auto name = "v_schedo";
+        static void           start(Scalar<"id", Int> id, NodeScheduler sched, State<Int> k, NodeView self, DateTime now)
+        {
+            k.set(Int{0});
+            run_sched_ops(id.value(), 0, false, sched, self, now);
+        }
+        static void eval(Scalar<"id", Int> id, In<"x", TS<Int>, InputValidity::Unchecked> x, NodeScheduler sched, State<Int> k, NodeView self,
+                         DateTime now, Out<TS<Int>> out)
+        {
+            const Int kk = k.get() + 1;
+            k.set(kk);
+            run_sched_ops(id.value(), kk, x.modified(), sched, self, now);
+            out.set(kk);
         }
     };
 
@@ -1518,6 +1544,7 @@ namespace
                 env.dports.emplace(id, wire<VDURef>(w, resolve(env, sp.ins.at(0)), env.dports.at(std::stol(sp.ins.at(1))), env.dports.at(std::stol(sp.ins.at(2)))).as<DInt>());
             }
             else if (kind == "sched") { wire<VSched>(w, sid, in.at(0)); }
+            else if (kind == "schedo") { env.ports.emplace(id, wire<VSchedO>(w, sid, in.at(0))); }
             else if (kind == "lsrc") { env.ports.emplace(id, wire<LSrc>(w, sid, Int{l.geti("cnt", 2)})); }
             else if (kind == "lpass") { env.ports.emplace(id, wire<LPass>(w, sid, in.at(0))); }
             else if (kind == "lsink") { wire<LSink>(w, sid, in.at(0)); }
